@@ -33,7 +33,7 @@ type concOp struct {
 	panicked  string
 	call, ret int64
 	skipped   bool // not executed because an earlier operation of its task failed
-	data      any // operation arguments / observed result for the model
+	data      any  // operation arguments / observed result for the model
 }
 
 // conflict reports whether the operation failed with Badger's optimistic
